@@ -32,6 +32,13 @@ Contribution-list dimension (KTableHistory.tla: clist over CLists, PathRead muta
       `contribs` setting, and (b) in the exact vectors of KTable.tla: the exported second contribution c is the SUM of
       two LayerContribution objects placed around the absorption in the order the vector's list says; the kernel is
       called on a path that already holds optical depth and must leave every other row of the array untouched.
+Loading part (spec/KTableLoad.tla, MC_KTableLoad.tla; harness/fx_c20load.py): container format {pickle, HDF5, NEMESIS .kta} x weight
+      symmetry under g -> n+1-g (dyadic weights, symmetric and NOT symmetric) x coefficient profile across g (equal, rising, falling,
+      unordered; two wavenumbers with different profiles) x path length.  PairingIsTheFiles: the transmittance computed from what a
+      reader hands over is the file's weight-averaged exponential (exact rationals); the variant "quadrature axis of the coefficients
+      reversed, weights as stored" is refuted, and shown to be invisible with symmetric weights or degenerate tables.  Every exported
+      table is written in its format, loaded by KTableCache from ktable_path and pushed through the real kernel contribute_ktau:
+      exact value (1e-12; 5e-8 for the float32 NEMESIS container, derived in fx_c20load.py), unit interval, Jensen bound.
 """
 import math
 import os
@@ -45,6 +52,7 @@ from ..core import Machinery, frac, close, validate_trace, run_tlc
 from .. import fx_emission as fx
 from .. import fx_c20hist as fh
 from .. import fx_c20cfg as fc
+from .. import fx_c20load
 from ..fixtures import GridOpacity
 
 WN = [800.0, 2500.0]
@@ -639,6 +647,37 @@ def replay_histories(ctx, vs):
         run_traces(ctx, 0, extra=log.events)
 
 
+def run_loading(ctx, only=None):
+    """The k-table loading part (spec/KTableLoad.tla): container format x weight symmetry x coefficient profile; the loaded
+    (coefficient, weight) pairing is the file's, observed through the real kernel as the exact weight-averaged exponential."""
+    res = run_tlc('MC_KTableLoad', 'EX_KTableLoad.cfg', workers=1, allow_violation=True)
+    ctx.add_tlc('loading-export', res, counts=False)
+    if res.violated:
+        raise Machinery('KTableLoad: %s violated by the design' % res.violated)
+    vecs = res.tagged('LVEC')
+    fmts = {(v['fmt'], bool(v['sym'])) for v in vecs}
+    if len(vecs) < 150 or fmts != {(f, s) for f in ('pickle', 'hdf5', 'nemesis') for s in (True, False)}:
+        raise Machinery('KTableLoad export incomplete: %d tables, classes %r' % (len(vecs), sorted(fmts)))
+    if only is not None:
+        vecs = [v for v in vecs if v['fmt'] == only['fmt'] and v['w'] == only['w'] and v['k'] == only['k']]
+        return fx_c20load.run(ctx, vecs)
+    ctx.expect_refuted('refute-quadrature-axis-reversed', 'MC_KTableLoad', 'MC_KTableLoad_reversed_refuted.cfg', 'PairingIsTheFiles', workers=1)
+    ctx.expect_refuted('nonvacuous-asymmetric-weights', 'MC_KTableLoad', 'MC_KTableLoad_nonvac.cfg', 'NeverAsymmetric', workers=1)
+    # why the dimension is needed: with symmetric weights only (and on degenerate tables) the reversed pairing is invisible
+    for label, cfg in (('symmetric-weights-blind', 'MC_KTableLoad_symmetric_blind.cfg'), ('degenerate-tables-blind', 'MC_KTableLoad_degenerate_blind.cfg')):
+        r = run_tlc('MC_KTableLoad', cfg, workers=1, allow_violation=True)
+        ctx.add_tlc(label, r, counts=False)
+        if r.violated:
+            raise Machinery('KTableLoad/%s: expected to hold, %s violated' % (cfg, r.violated))
+    import time as _t
+    t0 = _t.time()
+    n = fx_c20load.run(ctx, vecs)
+    ctx.note('k-table loading part: %.1f s' % (_t.time() - t0))
+    if n < len(vecs) and not ctx.has_violations():
+        raise Machinery('only %d of %d exported k-table files were loaded' % (n, len(vecs)))
+    ctx.note('k-table loading: %d files (pickle / HDF5 / NEMESIS x symmetric / asymmetric dyadic weights x 2..4 points) through KTableCache and the kernel' % n)
+
+
 def run(ctx):
     q = ctx.tier == 'quick'
     ctx.bounds = dict(tier=ctx.tier,
@@ -659,6 +698,8 @@ def run(ctx):
                                         'transmission and an emission twin pair (degenerate and generic table), 3 lists per '
                                         'history scenario with a contribs setting; exact vectors with c carried by one or two '
                                         'contributions in 5 orders around the absorption')
+    ctx.bounds['loading'] = ('formats {pickle, hdf5, nemesis} x weights {1,1}/2 {3,1}/4 {1,2,1}/4 {1,2,5}/8 {3,5,5,3}/16 {9,4,2,1}/16 x ordered pairs of '
+                             'coefficient profiles of 2..4 points over 0..4 ln2 x path lengths 1..3 (174 files)')
     ctx.assumptions = ['k-table files: PickleKTable layout written by the harness; pressure grid = layer pressures, values constant in T',
                        'cross-section twin: GridOpacity fixture on the same grid and numbers',
                        'per-layer coefficients are scaled with the model\'s documented deltaz and densityProfile',
@@ -678,6 +719,7 @@ def run(ctx):
     ctx.expect_refuted('refute-unnormalised-weights', 'MC_KTable', 'MC_KTable_refute_weights.cfg', 'RefuteUnnormalised')
     for cfg in (['EX_KTable_quick.cfg', 'EX_KTable_quick3.cfg'] if q else ['EX_KTable_thorough.cfg', 'EX_KTable_quick3.cfg']):
         run_vectors(ctx, cfg, cfg[3:-4])
+    run_loading(ctx)
     cvecs, lists = export_configurations(ctx)
     log = run_histories(ctx, 6 if q else 24, not q, lists)
     sweep = run_configurations(ctx, cvecs, log, not q)
@@ -708,6 +750,9 @@ def replay(ctx, violations):
     for v in violations:
         vec = v['vector'] or {}
         if vec.get('history') or vec.get('config') or vec.get('contribs_sweep'):
+            continue
+        if vec.get('load'):
+            run_loading(ctx, only=vec)
             continue
         if vec.get('trace'):
             if not done_trace:
